@@ -42,13 +42,19 @@ Theorem index_is_preorder : forall evs d, build_sax evs = Some d -> incr_from fi
 Proof. exact index_preorder. Qed.
 Print Assumptions index_is_preorder.
 
-(* the wrapper walk numbers every DOM (CDATA sections, entity references, document type included) in pre-order *)
-Theorem wrap_is_preorder : forall xs, incr_from wrap_first_index (wflat (wrap xs)).
+(* the wrapper walk over every DOM (CDATA sections, entity references, document type included): the indexes
+   of the nodes it links increase in document order (element, its attributes, its children) *)
+Theorem wrap_indexes_ascend : forall xs, ascending_from wrap_first_index (wflat (wrap xs)).
+Proof. exact wrap_ascending. Qed.
+Print Assumptions wrap_indexes_ascend.
+
+(* without a document type node (whose wrapper and entities take indexes but are not linked) they are consecutive *)
+Theorem wrap_is_preorder : forall xs, forallb xnodoctype xs = true -> incr_from wrap_first_index (wflat (wrap xs)).
 Proof. exact wrap_preorder. Qed.
 Print Assumptions wrap_is_preorder.
 
-(* and presents exactly the DOM's nodes in the DOM's order *)
-Theorem wrap_presents_dom : forall xs, map wstrip (wrap xs) = map x2t xs.
+(* and it presents exactly the DOM's nodes except the document type, in the DOM's order *)
+Theorem wrap_presents_dom : forall xs, map wstrip (wrap xs) = map x2t (drop_doctype xs).
 Proof. exact wrap_strip. Qed.
 Print Assumptions wrap_presents_dom.
 
@@ -71,12 +77,11 @@ Proof.
 Qed.
 Print Assumptions wrap_eq_build_refuted.
 
-(* refuted by a document type declaration: the wrapper presents it as a node (with an index, before
-   the document element); a parser reports nothing for it to the native builder *)
-Definition doctype_witness : list xnode := [XDoctype s_a 0; XElem s_a [] []].
-Theorem wrap_eq_build_refuted_doctype : ~ wrap_eq_build_statement doctype_witness.
-Proof. intros [d [Hb He]]. vm_compute in Hb. inversion Hb; subst. vm_compute in He. discriminate. Qed.
-Print Assumptions wrap_eq_build_refuted_doctype.
+(* a document type declaration no longer refutes it (the wrapper does not link the DocumentType node
+   into the child chain since the repair of K05c): see wrap_eq_build_partial, whose guard ignores it *)
+Definition doctype_witness : list xnode := [XDoctype s_a 2; XComment s_x; XElem s_a [] [XText s_y]].
+Example doctype_witness_agrees : wrap_eq_build_statement doctype_witness.
+Proof. eexists. split; [vm_compute; reflexivity | vm_compute; reflexivity]. Qed.
 
 (* refuted also by attribute order alone: the DOM keeps its own order, the native builder puts the
    xmlns declarations first *)
@@ -85,15 +90,16 @@ Theorem wrap_eq_build_refuted_attr_order : ~ wrap_eq_build_statement attr_witnes
 Proof. intros [d [Hb He]]. vm_compute in Hb. inversion Hb; subst. vm_compute in He. discriminate. Qed.
 Print Assumptions wrap_eq_build_refuted_attr_order.
 
-(* partial: exact decidable guard xnormal = only element/text/comment/PI nodes, XPath-normal text,
-   attributes in the native order (xmlns declarations first, no explicit xmlns:xml).  Then: same
-   nodes in the same order (indexes and the implicit xmlns:xml attribute of the native document
-   element erased), and BOTH numberings are consecutive in that order *)
-Theorem wrap_eq_build_partial : forall xs, xnormal xs = true ->
+(* partial: exact decidable guard xnormal (drop_doctype xs) = apart from the document type only
+   element/text/comment/PI nodes, XPath-normal text, attributes in the native order (xmlns declarations
+   first, no explicit xmlns:xml).  Then: same nodes in the same order (indexes and the implicit xmlns:xml
+   attribute of the native document element erased), the native numbering is consecutive and the
+   wrapper's increases in that order *)
+Theorem wrap_eq_build_partial : forall xs, xnormal (drop_doctype xs) = true ->
   exists d, build_sax (sax_of_list xs) = Some d
             /\ map (strip true) d = map wstrip (wrap xs)
             /\ incr_from first_index (flat d)
-            /\ incr_from wrap_first_index (wflat (wrap xs)).
+            /\ ascending_from wrap_first_index (wflat (wrap xs)).
 Proof. exact wrap_eq_build. Qed.
 Print Assumptions wrap_eq_build_partial.
 
@@ -173,7 +179,7 @@ Proof. vm_compute. auto. Qed.
 
 Definition dom1 : list xnode :=
   [XComment s_x; XElem s_a [(s_xmlns_colon ++ s_y, s_x); (s_b, s_x)] [XText (s_x ++ s_y); XPi s_b s_x; XElem s_b [] []]].
-Example dom1_normal : xnormal dom1 = true.
+Example dom1_normal : xnormal (drop_doctype (XDoctype s_a 1 :: dom1)) = true.
 Proof. reflexivity. Qed.
 
 Example dom1_wrapped :
@@ -182,8 +188,8 @@ Example dom1_wrapped :
                  [WText 6 (s_x ++ s_y); WPi 7 s_b s_x; WElem 8 s_b [] []]].
 Proof. vm_compute. reflexivity. Qed.
 
-(* a document type with two entities takes three indexes *)
-Example doctype_indexes : wflat (wrap [XDoctype s_a 2; XElem s_a [] [XCData s_x; XEntRef s_b [XText s_y]]]) = [2; 3; 4; 5; 6; 7; 8]%N.
+(* a document type with two entities takes three indexes and is not linked *)
+Example doctype_indexes : wflat (wrap [XDoctype s_a 2; XElem s_a [] [XCData s_x; XEntRef s_b [XText s_y]]]) = [5; 6; 7; 8]%N.
 Proof. vm_compute. reflexivity. Qed.
 
 Definition writes1 : list owrite := [OWide [1; 2; 3]; OChar 4; OWide [5; 6; 7; 8; 9]; OFlush; ONarrow [10; 11]; OWide [12]]%N.
